@@ -36,7 +36,7 @@ MAP = [0, 1, 0, 1]
 
 
 def bounds(tier):
-    return {"fault_stride": 3 if tier == "quick" else 1, "ns": [600] if tier == "quick" else [600, 1400], "max_ops": 140}
+    return {"fault_stride": 3 if tier == "quick" else 1, "ns": [600] if tier == "quick" else [600, 1400], "max_ops": 190}
 
 
 def setup():
@@ -123,6 +123,7 @@ def _run(ctx, F, raw, ns, p, kind, opts, overwrite, fault, log):
     import neuropixel
     ap = ORIG if bool(F.exists(ORIG)) else "/s/probe00/x.imec0.ap.cbin"
     n0 = F.nops
+    m0 = F.nmut
     F.fault_at = None if fault is None else n0 + fault
     unlink_ok = []
 
@@ -145,6 +146,7 @@ def _run(ctx, F, raw, ns, p, kind, opts, overwrite, fault, log):
         F.fault_at = None
         F.fault_hook = None
     log["ops"] = F.nops - n0
+    log["mut"] = F.nmut - m0
     log["unlink_ok"] = unlink_ok
     return res
 
@@ -181,9 +183,9 @@ def case_history(ctx, kind, ns, fault1, overwrite1, second, third=None):
             if opts["delete_original"] and opts["post_check"]:
                 ctx.oblige("original_removed_when_asked_and_verified", not bool(F.exists(ORIG)))
         if kind == "NP1":
-            ctx.oblige("np1_status_minus_one_and_no_mutation", r1 == -1 and log1["ops"] == 0, detail={"status": r1, "ops": log1["ops"]})
+            ctx.oblige("np1_status_minus_one_and_no_mutation", r1 == -1 and log1["mut"] == 0, detail={"status": r1, "ops": log1["mut"]})
         if kind == "split":
-            ctx.oblige("already_split_status_zero_and_no_mutation", r1 == 0 and log1["ops"] == 0, detail={"status": r1, "ops": log1["ops"]})
+            ctx.oblige("already_split_status_zero_and_no_mutation", r1 == 0 and log1["mut"] == 0, detail={"status": r1, "ops": log1["mut"]})
     if second is None:
         return
     if not bool(F.exists(ORIG)) and kind == "NP2.4":
@@ -193,7 +195,7 @@ def case_history(ctx, kind, ns, fault1, overwrite1, second, third=None):
     ctx.oblige("original_recoverable_after_run2", _recoverable(ctx, F, raw, ns, p, kind), detail={"opts": opts, "fault": fault1, "second": second, "result": repr(r2)[:120]})
     ctx.oblige("original_unlinked_only_when_replacement_complete", all(log2["unlink_ok"]), detail={"opts": opts})
     if second == "F" and not crashed1 and kind in ("NP2.4", "NP2.1"):
-        ctx.oblige("repeated_run_without_overwrite_does_nothing", (not isinstance(r2, Exception)) and r2 == 0 and log2["ops"] == 0, detail={"status": repr(r2)[:100], "ops": log2["ops"], "opts": opts})
+        ctx.oblige("repeated_run_without_overwrite_does_nothing", (not isinstance(r2, Exception)) and r2 == 0 and log2["mut"] == 0, detail={"status": repr(r2)[:100], "mutations": log2["mut"], "opts": opts})
     if second == "T" and kind == "NP2.4":
         if isinstance(r2, Exception):
             ctx.oblige("forced_rerun_does_not_raise", False, detail={"opts": opts, "after_fault": fault1, "exception": repr(r2)[:200]})
